@@ -1221,7 +1221,7 @@ func main() {
 				sz = 8 // plenty of tiny trees
 			}
 			c := genCase(root.Fork(uint64(i)), len(cases), pf, sz)
-			if (*prof == "C09" || *prof == "C11") && i%50 == 13 {
+			if (*prof == "C09" || *prof == "C11") && i%50 == 13 && i < 700 {
 				// a history across the 1000-header file boundary with the whole first file in
 				// pruned history (observations only after loads / cleans and at the end)
 				var ops []Op
@@ -1239,7 +1239,7 @@ func main() {
 			}
 			if *prof == "C12" {
 				c = dropOps(c, "observe")
-				if i%25 == 7 { // work across the boundary between header files 0 and 1
+				if i%25 == 7 && i < 700 { // work across the boundary between header files 0 and 1
 					c = prependChain(c, 985+root.Fork(uint64(i)^0xf11e).Intn(20))
 				}
 				c.Crash = true
